@@ -24,6 +24,49 @@ func refEncode(tag byte, v []byte) []byte {
 	return out
 }
 
+// refCanon is what a standard TLV8 parser makes of a wire: items are read one after the
+// other, adjacent items of the same type are one value (fragments), and the result is
+// written back in the strict reference form. Two wires with the same canonical form carry
+// the same values for every standard peer. ok is false when the wire is not a sequence of
+// complete items.
+func refCanon(wire []byte) (canon []byte, ok bool) {
+	items, ok := refParse(wire)
+	if !ok {
+		return nil, false
+	}
+	// an empty item carries nothing for this container (Get* concatenates per type)
+	kept := items[:0:0]
+	for _, it := range items {
+		if len(it.val) > 0 {
+			kept = append(kept, it)
+		}
+	}
+	items = kept
+	canon = []byte{}
+	for i := 0; i < len(items); {
+		tag := items[i].tag
+		val := []byte{}
+		j := i
+		for j < len(items) && items[j].tag == tag {
+			val = append(val, items[j].val...)
+			j++
+		}
+		canon = append(canon, refEncode(tag, val)...)
+		i = j
+	}
+	return canon, true
+}
+
+// wireOK: the bytes written are a standard fragmentation of the reference (alarm), and they
+// are the reference byte for byte (internal expectation only: a different but equivalent
+// fragmentation, e.g. a trailing empty fragment, is not a violation of the property).
+func wireOK(enc, ref []byte) {
+	verif.Assert(verif.Eq(enc, ref), "inv:wire-equals-reference")
+	ce, ok1 := refCanon(enc)
+	cr, ok2 := refCanon(ref)
+	verif.Assert(ok1 && ok2 && verif.Eq(ce, cr), "wire-is-a-standard-fragmentation-of-the-values")
+}
+
 func Harness_C16_q_roundtrip_one() {
 	lens := []int{0, 1, 2, 254, 255, 256, 509, 510, 511, 600}
 	if verif.Thorough() {
@@ -35,7 +78,7 @@ func Harness_C16_q_roundtrip_one() {
 	c := NewTLV8Container()
 	c.SetBytes(tag, val)
 	enc := c.BytesBuffer().Bytes()
-	verif.Assert(verif.Eq(enc, refEncode(tag, val)), "wire-equals-reference")
+	wireOK(enc, refEncode(tag, val))
 	back, err := NewTLV8ContainerFromReader(bytes.NewBuffer(enc))
 	verif.Assert(err == nil, "reparse-ok")
 	if err != nil {
@@ -69,7 +112,7 @@ func Harness_C16_q_roundtrip_multi() {
 		ref = append(ref, refEncode(tags[i], vals[i])...)
 	}
 	enc := c.BytesBuffer().Bytes()
-	verif.Assert(verif.Eq(enc, ref), "wire-equals-reference")
+	wireOK(enc, ref)
 	back, err := NewTLV8ContainerFromReader(bytes.NewBuffer(enc))
 	verif.Assert(err == nil, "reparse-ok")
 	if err != nil {
@@ -133,20 +176,40 @@ func Harness_C16_q_parse_arbitrary() {
 		return
 	}
 	items, ok := refParse(raw)
-	verif.Assert((err == nil) == ok, "error-iff-truncated")
+	// a well-formed input must parse (it may be the serialisation of a container)
+	verif.Assert(!ok || err == nil, "well-formed-input-parses")
+	// accepting an input that ends inside an item is not what this parser does today, but the
+	// property only demands "succeeds or errors, and yields nothing that was not in the input"
+	verif.Assert(ok || err != nil, "inv:truncated-input-is-an-error")
 	if err != nil {
 		verif.Reach("end")
 		return
 	}
 	got := cont.(*tlv8Container).Items
-	verif.Assert(len(got) == len(items), "item-count")
-	if len(got) != len(items) {
-		return
-	}
-	for i := range got {
-		verif.Assert(got[i].tag == items[i].tag, "item-tag")
-		verif.Assert(int(got[i].length) == len(items[i].val), "item-length")
-		verif.Assert(verif.Eq(got[i].value, items[i].val), "item-value-is-input-slice")
+	if ok {
+		verif.Assert(len(got) == len(items), "item-count")
+		if len(got) != len(items) {
+			return
+		}
+		for i := range got {
+			verif.Assert(got[i].tag == items[i].tag, "item-tag")
+			verif.Assert(int(got[i].length) == len(items[i].val), "item-length")
+			verif.Assert(verif.Eq(got[i].value, items[i].val), "item-value-is-input-slice")
+		}
+	} else {
+		// lenient acceptance of a truncated input: every item still is a piece of the input,
+		// in order
+		off := 0
+		for i := range got {
+			fits := off+2+len(got[i].value) <= len(raw)
+			verif.Assert(fits, "item-value-is-input-slice")
+			if !fits {
+				return
+			}
+			verif.Assert(got[i].tag == raw[off], "item-tag")
+			verif.Assert(verif.Eq(got[i].value, raw[off+2:off+2+len(got[i].value)]), "item-value-is-input-slice")
+			off += 2 + len(got[i].value)
+		}
 	}
 	// getters on arbitrary parsed input do not panic either
 	q := verif.U8("qtag")
